@@ -57,6 +57,53 @@ def script(graph=0):
 OPS = ["setup", "iterate", "iterate_n", "run", "sample", "finalize", "iterate_n0"]
 
 
+def dropping_an_object_is_silent(o0, o1, o2, o3):
+    """Engine objects used strictly one after the other on one library: the native simulation is released by finalize() and by
+    nothing else. Reclaiming an engine object (last reference dropped, garbage collection) issues NO native call - otherwise it
+    would release the simulation that by then belongs to the object in use, whose next call reads freed memory. Sequences of 4
+    operations over {use the current object (iterate), finalize it, replace it by a new object that is set up, drop every old
+    object and collect}; after each: the stand-in's simulation is live iff the current object was set up and not finalized."""
+    import gc
+    lib = FakeLib(3)
+    calls = []
+    for name in ("engineexport_initialize_grid", "engineexport_initialize_graph", "engineexport_finalize", "engineexport_iterate"):
+        def wrap(f, name=name):
+            def g(*a):
+                calls.append(name)
+                return f(*a)
+            return g
+        setattr(lib, name, wrap(getattr(lib, name)))
+    cur = LibRDEngine(lib, option="euler")
+    cur.setup(script(0))
+    old = []
+    live = True
+    k = 0
+    for o in (o0, o1, o2, o3):
+        if o == 0:
+            if live:
+                cur.iterate()
+        elif o == 1:
+            cur.finalize()
+            live = False
+        elif o == 2:
+            if live:
+                cur.finalize()             # sequential use: the previous object is finalized before the next one is set up
+            old.append(cur)
+            k += 1
+            cur = LibRDEngine(lib, option="euler")
+            cur.setup(script(k))
+            live = True
+        else:
+            n0 = len(calls)
+            del old[:]
+            gc.collect()
+            if len(calls) != n0:
+                return False               # reclaiming an object made a native call
+        if lib.live != live:
+            return False
+    return True
+
+
 def completion_refers_to_current_setup(life, o0, o1, o2, o3, o4):
     """after any sequence of wrapper calls starting with setup, is_complete() is True iff the CURRENT set-up has finished"""
     lib = FakeLib(life)
@@ -88,6 +135,20 @@ def completion_refers_to_current_setup(life, o0, o1, o2, o3, o4):
             return False
     return True
 '''
+
+
+DROP_COND = '''
+
+def h_drop_is_silent(o0: int, o1: int, o2: int, o3: int) -> bool:
+    """
+    pre: 0 <= o0 <= 3 and 0 <= o1 <= 3 and 0 <= o2 <= 3 and 0 <= o3 <= 3
+    post: _
+    """
+    return dropping_an_object_is_silent(o0, o1, o2, o3)
+'''
+DROP = {"fn": "h_drop_is_silent", "what": "the native simulation is released by finalize() and by nothing else: reclaiming an engine object (reference dropped, garbage collection) issues no native call, so it cannot release the "
+        "simulation of the object in use (engine objects used strictly one after the other on one library; all sequences of 4 operations over {iterate, finalize, replace by a new set-up object, drop old objects and collect})",
+        "sig": "wrapper-releases-on-drop", "structure": "LibRDEngine", "viol": "an engine object releases the process-wide native simulation when it is reclaimed: the simulation of the engine in use is freed under it (use after free at its next call)"}
 
 
 def run(rec):
@@ -122,13 +183,15 @@ def h_step_count_units(u: int, g: int, opt: int, tu: int) -> bool:
     from harness.c09lib import step_count_in_units
     return step_count_in_units(u, g, opt, tu)
 '''
+    text += DROP_COND
     mod = pysym.write_module("hgen_C10", text)
     pysym.run_auto(rec, mod, [{"fn": "h_is_complete", "what": "the completion status reported by an engine object always refers to its current set-up (every sequence of 4 wrapper calls, stand-in library finishing after 1..3 iterations)",
                                "sig": "c10-is-complete-stale", "structure": "LibRDEngine", "viol": "is_complete() reports the status of a previous set-up"},
                               {"fn": "h_setup_is_pure", "what": "a new set-up starts from a clean slate at the Python layer too: setting an engine object up leaves the caller's script untouched, so a later set-up of the same script on this or another engine object hands the native engine what a fresh identical script gives (6 unit-system choices x grid/graph x 3x3 engine kinds)",
                                "sig": "c10-setup-not-clean", "structure": "LibRDEngine", "viol": "a set-up writes into the caller's script: a later set-up of the same script (same or other engine object) is not the simulation the script describes"},
                               {"fn": "h_step_count_units", "what": "a fixed-step run completes after ceil(t_max/dt) steps of the MODEL: the ratio t_max / time_step handed to the native engine equals the physical ratio, for t_max / time_step / sampling interval written with their own units (ms, min, h, s) under any of the 11 script systems, grid and graph, 3 engine kinds",
-                               "sig": "c10-step-count-units", "structure": "LibRDEngine", "viol": "the number of steps to completion depends on the units in which t_max / the time step are written"}])
+                               "sig": "c10-step-count-units", "structure": "LibRDEngine", "viol": "the number of steps to completion depends on the units in which t_max / the time step are written"},
+                              dict(DROP, sig="c10-" + DROP["sig"])])
     two_objects(rec)
 
 
@@ -168,3 +231,9 @@ print("SAME" if got == ref else "DIFFERENT", ref[:4], got[:4])
     if not ok:
         rec.violation("c10-engine-objects-share-one-simulation", "engine objects are not independent: after a second engine object is set up, the first one's get_output() returns the second simulation's data "
                       "(the native library keeps ONE process-wide simulation): " + out[:200], {"child_output": out})
+
+
+def drop_leg(rec, prefix):
+    """the same condition under another property's id (C11: no use after free through the wrapper)"""
+    mod = pysym.write_module("hgen_%s_drop" % prefix, HARNESS + DROP_COND)
+    pysym.run_auto(rec, mod, [dict(DROP, sig=prefix.lower() + "-" + DROP["sig"])])
